@@ -19,6 +19,7 @@ state and may decide conditions.  No code of the analysed package is run.
 """
 import ast
 import copy
+import os
 
 from .model import AnalysisError, dotted, norm, strip_docstring
 
@@ -229,6 +230,20 @@ class _Subst(ast.NodeTransformer):
     def visit_Lambda(self, node):
         return node
 
+    def visit_Subscript(self, node):
+        node = self.generic_visit(node)
+        # (a, b, c)[1] is b
+        if isinstance(node.value, (ast.Tuple, ast.List)) and isinstance(
+                node.slice, ast.Constant) and isinstance(
+                    node.slice.value, int) and not isinstance(
+                        node.slice.value, bool) and not any(
+                            isinstance(e, ast.Starred)
+                            for e in node.value.elts) \
+                and -len(node.value.elts) <= node.slice.value < len(
+                    node.value.elts) and isinstance(node.ctx, ast.Load):
+            return node.value.elts[node.slice.value]
+        return node
+
     def visit_IfExp(self, node):
         node = self.generic_visit(node)
         t = fold_truth(node.test)
@@ -381,6 +396,12 @@ class Walker:
         self.merged = 0
         self.paths = 0
         self.forks = 0
+        self.steps = 0
+
+    # statements executed over all paths of one walker; beyond this the code
+    # has a shape whose paths the enumerator cannot cover in reasonable time:
+    # ANALYSIS-ERROR (exit 2), never a verdict
+    STEP_BUDGET = int(os.environ.get('DLINT_STEP_BUDGET', '600000'))
 
     # ------------------------------------------------------------------
     def run(self, func, cls=None, state=None, bind=None):
@@ -741,6 +762,31 @@ class Walker:
             star = any(isinstance(x, ast.Starred) for x in call.args)
             actual = [self.canon(st, x) for x in call.args
                       if not isinstance(x, ast.Starred)]
+            # f(a, b, *rest): the positional arguments before the first
+            # starred one bind positionally; if they fill every named
+            # parameter the star only feeds *args
+            n_before = next((i for i, x in enumerate(call.args)
+                             if isinstance(x, ast.Starred)), len(call.args))
+            if star and a.vararg and n_before >= len(params):
+                lead = [self.canon(st, x) for x in call.args[:len(params)]]
+                tail = self.canon(st, ast.Tuple(
+                    list(call.args[len(params):]), ast.Load()))
+                for pn, v in zip(params, lead):
+                    fr.env[pn] = v
+                fr.env[a.vararg.arg] = tail
+                kws = {k.arg: self.canon(st, k.value) for k in call.keywords
+                       if k.arg}
+                for kw, d in zip(a.kwonlyargs, a.kw_defaults):
+                    if kw.arg in kws:
+                        fr.env[kw.arg] = kws[kw.arg]
+                    elif d is not None:
+                        fr.env[kw.arg] = SymVal(d)
+                    else:
+                        fr.env[kw.arg] = self.fresh(st, kw.arg, tag='param')
+                if a.kwarg:
+                    fr.env[a.kwarg.arg] = self.fresh(st, a.kwarg.arg,
+                                                     tag='param')
+                return fr
             kws = {k.arg: self.canon(st, k.value) for k in call.keywords
                    if k.arg}
         defaults = dict(zip(reversed(params), reversed(a.defaults)))
@@ -801,6 +847,12 @@ class Walker:
                 yield ex
 
     def stmt(self, n, st):
+        self.steps += 1
+        if self.steps > self.STEP_BUDGET:
+            raise AnalysisError(
+                f'path budget exceeded ({self.STEP_BUDGET} statement '
+                f'executions) in {st.frames[0].func.where}: the paths of '
+                'this function cannot be enumerated')
         if isinstance(n, ast.Expr) and isinstance(n.value, ast.YieldFrom) \
                 and st.frame.gen_consumer is not None:
             # yield from X  ==  for v in X: yield v
